@@ -11,6 +11,10 @@
 //!
 //! If the test fails, simply pass `UPDATE_GOLDEN=1` env var to rerun the test.
 
+#[cfg(okane_verif)]
+pub mod verif;
+#[cfg(okane_verif)]
+use verif::std;
 use std::path::{Path, PathBuf};
 
 use pretty_assertions::assert_str_eq;
